@@ -1033,46 +1033,117 @@ def vec_pieces_bound(F, fn, b, limit=65535):
     return total <= limit and bool(pieces), 'pieces %s, total <= %d' % (pieces, total)
 
 
+def _reads_between(fn, head, frm, to, atoms):
+    """Some statement strictly after `frm` and up to (and including) `to`, along the straight line starting at block
+    `head`, reads one of the places named by `atoms` ('P:<canonical place>')."""
+    from qv.facts import rvalue_places
+    x = frm[0]
+    pos = frm[1] + 1
+    while True:
+        sts = fn.blocks[x]['stmts']
+        hi = to[1] + 1 if x == to[0] else len(sts)
+        for k in range(pos, hi):
+            st = sts[k]
+            if st['k'] == 'assign':
+                for pl in rvalue_places(st['rv']):
+                    if 'P:' + fn.canon_str(pl) in atoms:
+                        return True
+        if x == to[0]:
+            return False
+        nx = [y for y in fn.succs()[x] if not fn.blocks[y]['cleanup']]
+        if len(nx) != 1:
+            return True
+        x, pos = nx[0], 0
+
+
 def check_store_preserves(R, F, S, rule, sty, inv_terms, fields, exceptions=None, scope=None):
-    """Strong invariant: every single store to one of `fields` of struct `sty` re-establishes every invariant constraint
-    that mentions the stored field (with the stored value substituted, the other fields at their current values).
+    """Strong invariant: every store to one of `fields` of struct `sty` re-establishes every invariant constraint that
+    mentions the stored field (with the stored value substituted, the other fields at their current values).
+
+    Stores to several of the fields inside ONE basic block form a group: no call (hence no other code that could look at
+    the struct -- the method holds `&mut self`) runs between them, so the invariant is required after the LAST store of
+    the group only, with all stored values substituted at once and everything evaluated in the state before the first
+    store, where the invariant still holds.  (`limit` and `available` moved together by set_limit, in either order.)
     inv_terms(sp) -> [(lhs_expr, rhs_expr, text)] meaning lhs <= rhs, over atoms built from the self place string sp."""
     exceptions = exceptions or {}
     n = 0
     counts = {}
+    stores = []
     for f in fields:
         for fn, b, i, st in field_stores(F, sty, f, scope):
-            n += 1
             k = (fn.gpath, f)
             counts[k] = counts.get(k, 0) + 1
-            key = '%s|%s-store@%s#%d' % (sty, f, fn.gpath, counts[k])
-            an = Analyzer(fn, F, S)
-            base = fn.canon_str({'l': st['lhs']['l'], 'p': st['lhs']['p'][:-1], 'ty': ''})
-            an._site = (b, i)
-            new = an.ev_rv(st['rv'], 0, (b, i))
+            stores.append((fn, b, i, st, f, '%s|%s-store@%s#%d' % (sty, f, fn.gpath, counts[k])))
+    def chain_head(fn, b):
+        # blocks linked by goto / overflow-assert terminators with no other way in form one straight line without calls
+        seen = set()
+        while b not in seen:
+            seen.add(b)
+            ps = [p for p in fn.preds()[b] if not fn.blocks[p]['cleanup']]
+            if len(ps) != 1 or fn.blocks[ps[0]]['term']['k'] not in ('goto', 'assert'):
+                break
+            if [x for x in fn.succs()[ps[0]] if not fn.blocks[x]['cleanup']] != [b]:
+                break
+            b = ps[0]
+        return b
+
+    def chain_pos(fn, head, b):
+        k, x = 0, head
+        while x != b:
+            nx = [y for y in fn.succs()[x] if not fn.blocks[y]['cleanup']]
+            x = nx[0]
+            k += 1
+        return k
+    groups = {}
+    for rec in stores:
+        fn, b, i, st, f, key = rec
+        base = fn.canon_str({'l': st['lhs']['l'], 'p': st['lhs']['p'][:-1], 'ty': ''})
+        groups.setdefault((fn.gpath, chain_head(fn, b), base), []).append(rec)
+    for (gp, head, base), recs in groups.items():
+        fn = recs[0][0]
+        recs.sort(key=lambda r: (chain_pos(fn, head, r[1]), r[2]))
+        an = Analyzer(fn, F, S)
+        b, first = recs[0][1], recs[0][2]
+        news = {}
+        ok = True
+        unmet = ''
+        for (_, sb_, i, st, f, key) in recs:
+            an._site = (b, first)
+            new = an.ev_rv(st['rv'], 0, (b, first))
             atom = 'P:%s.%s' % (base, f)
-            ok = new is not None
-            unmet = 'stored value is not linear'
-            if ok:
-                goals = []
-                for lhs, rhs, txt in inv_terms(base):
-                    if atom not in lhs and atom not in rhs:
-                        continue
-                    def sub(e):
-                        e = dict(e)
-                        c = e.pop(atom, 0)
-                        return add(e, scale(new, c)) if c else e
-                    goals.append(le(sub(lhs), sub(rhs)))
-                ok, unmet = prove_at(an, b, i, goals)
+            if new is None:
+                ok, unmet = False, 'stored value is not linear'
+                break
+            if (sb_, i) != (b, first) and _reads_between(fn, head, (b, first), (sb_, i), set(news)):
+                # the value of a later store may read a field that an earlier store of the group has already replaced
+                ok, unmet = False, 'a store of the group reads a field stored earlier in the same group'
+                break
+            news[atom] = new          # a second store to the same field in the block supersedes the first
+        if ok:
+            goals = []
+            for lhs, rhs, txt in inv_terms(base):
+                if not any(a in lhs or a in rhs for a in news):
+                    continue
+
+                def sub(e):
+                    out = {}
+                    for a, c in e.items():
+                        out = add(out, scale(news[a], c)) if a in news else add(out, {a: c})
+                    return out
+                goals.append(le(sub(lhs), sub(rhs)))
+            ok, unmet = prove_at(an, b, first, goals)
+        for (_, sb_, i, st, f, key) in recs:
+            n += 1
             cands = [v for (g3, f3, k3), v in exceptions.items() if g3 == fn.gpath and f3 == f]
             ex = bool(cands)
-            why = 'the store keeps the invariant'
-            if not ok and cands:
+            why = 'the store keeps the invariant' if len(recs) == 1 else 'the %d stores of this block together keep the invariant' % len(recs)
+            okk = ok
+            if not okk and cands:
                 for reason, prem in cands:
-                    pok, pdet = prem(F, fn, b)
+                    pok, pdet = prem(F, fn, sb_)
                     why = 'justified exception: %s [premises %s: %s]' % (reason, 'hold' if pok else 'FAILED', pdet)
                     if pok:
-                        ok = True
+                        okk = True
                         break
-            R.require(ok, rule, key, fn.where(b), why, 'cannot prove that the store of %s keeps the invariant: %s%s' % (f, unmet, ('; ' + why) if ex else ''))
+            R.require(okk, rule, key, fn.where(sb_), why, 'cannot prove that the store of %s keeps the invariant: %s%s' % (f, unmet, ('; ' + why) if ex else ''))
     return n
